@@ -4,3 +4,4 @@ import PV.Lemmas
 import PV.Generated
 import PV.MainProof
 import PV.NonHermProof
+import PV.Charpoly
